@@ -2299,7 +2299,9 @@ def stream_getter_shapes(rows: list[dict[str, Any]]) -> Stream:
 		st.disagreements.append({'case': 'childless instance of a class outside the all-list rows', 'op': '-', 'real': ','.join(stray), 'model': 'shipped_clause2_only_all_list excludes it'})
 	st.samples.append({'clause2_candidates': [rows[i]['name'] for i in cand], 'met_childless': sorted(rows[i]['name'] for i in cand if i in CHILDLESS_SEEN)})
 	st.note = (f'{len(SHAPE_SEEN)} of {total} (class, key) pairs met on real nodes in this run (every property read of the exports and the property walks is recorded); '
-		'an unobserved pair is covered by the static row (keys + annotation flag vs the imported class) only')
+		'an unobserved pair is covered by the static row (keys + annotation flag vs the imported class) only'
+		+ '; classes with keys not met: ' + (', '.join(sorted(r['name'] for i, r in enumerate(rows) if r['entries'] and not any((i, e['key']) in SHAPE_SEEN for e in r['entries']))) or 'none')
+		+ '; clause-2 candidates met childless: ' + (', '.join(sorted(rows[i]['name'] for i in cand if i in CHILDLESS_SEEN)) or 'none'))
 	return st
 
 
